@@ -94,6 +94,30 @@ def directed(rng, doc, rr):
     return doc, dict(rr, rparts=[("prim", len(doc) - 1)])
 
 
+def edit_in_place(rng, doc, rr):
+    """the caller changes its own document between two validations: a nested scalar is replaced"""
+    targets = []
+
+    def walk(x, depth):
+        if isinstance(x, dict):
+            for k, v in x.items():
+                if isinstance(v, (dict, list)):
+                    walk(v, depth + 1)
+                elif depth >= 1:
+                    targets.append((x, k))
+        elif isinstance(x, list):
+            for j, v in enumerate(x):
+                if isinstance(v, (dict, list)):
+                    walk(v, depth + 1)
+                elif depth >= 1:
+                    targets.append((x, j))
+
+    walk(doc, 0)
+    for cont, k in (rng.sample(targets, min(3, len(targets))) if targets else []):
+        old = cont[k]
+        cont[k] = rng.choice([v for v in [0, 1, 5, "a", "zz", None, 2.5, True] if v != old or type(v) is not type(old)])
+
+
 def spec_expressible(rr):
     """the rule can be written as a spec: JSON-able arguments only (path arguments at the depths from_spec inspects)"""
     import json
@@ -160,6 +184,24 @@ def run(rep, tier, seed):
         events.append(e)
         recipes[e["id"]] = rec
         rep.note_case(repr((rr, doc)), nontrivial=e["tested"] or e["outcome"] != "ok")
+        if rng.random() < 0.3:
+            # the SAME rule object tests the document, the caller then edits the document in place where a path
+            # argument points (below the top level), and the rule tests it again; then an ==-but-retyped copy
+            shared = {}
+            try:
+                ruledrv.ruletest_event(0, rr, doc, "raw", shared=shared)
+                edit_in_place(rng, doc, rr)
+                e2 = ruledrv.ruletest_event(len(events) + 1, rr, doc, "raw", shared=shared)
+                events.append(e2)
+                recipes[e2["id"]] = {"op": "ruletest", "rule": ruledrv.lit_rule(rr), "doc": to_lit(doc), "entry": "raw",
+                                     "note": "second test by the same Rule object after an in-place edit of the document"}
+                d3 = ruledrv.retype(rng, doc, 0.8)
+                e3 = ruledrv.ruletest_event(len(events) + 1, rr, d3, "raw", shared=shared)
+                events.append(e3)
+                recipes[e3["id"]] = {"op": "ruletest", "rule": ruledrv.lit_rule(rr), "doc": to_lit(d3), "entry": "raw",
+                                     "note": "third test by the same Rule object on an ==-but-retyped document"}
+            except (Unencodable, TypeError, ValueError):
+                pass
     ruledrv.judge(rep, events, recipes, ruledrv.default_key)
     for e in events[:: max(1, len(events) // 2)][:2]:
         rep.sample({"src": recipes[e["id"]], "outcome": e["outcome"], "valid": e["valid"]})
